@@ -22,6 +22,7 @@ def posOfName (s : String) : Option Pos := Pos.all.find? (fun p => p.name == s)
 
 def flowName : Flow → String
   | .argToStore => "argToStore" | .storeToStore => "storeToStore"
+  | .argToCache => "argToCache" | .cacheToCache => "cacheToCache"
   | .storeToCache => "storeToCache" | .cacheToCaller => "cacheToCaller"
   | .storeToCaller => "storeToCaller" | .callerToCaller => "callerToCaller"
 
@@ -50,7 +51,8 @@ def flowAnswer (T : Table) (leg : Leg) (pos : Pos) (v : Val) : List String :=
   let inCache : World := ⟨[], [], [hv.1], hv.2⟩
   let inHeld : World := ⟨[], [hv.1], [], hv.2⟩
   -- the world the value starts in, the steps, and where the destination is
-  -- (0 = new held objects, 1 = store beyond the first document, 2 = whole store, 3 = cache)
+  -- (0 = new held objects, 1 = store beyond the first document, 2 = whole store, 3 = cache,
+  --  4 = cache beyond the first entry)
   let plan : World × List Step × Nat :=
     match pos.flow, leg with
     | .storeToCache, .fill => (inStore, [.fill [.piece pos (.store 0 [])]], 3)
@@ -61,6 +63,8 @@ def flowAnswer (T : Table) (leg : Leg) (pos : Pos) (v : Val) : List String :=
       (inStore, [.fill [.piece .findDoc (.store 0 [])], .read [.piece pos (.cache 0 [])]], 0)
     | .storeToCaller, _ => (inStore, [.read [.piece pos (.store 0 [])]], 0)
     | .callerToCaller, _ => (inHeld, [.read [.piece pos (.held 0 [])]], 0)
+    | .argToCache, _ => (inHeld, [.fill [.piece pos (.held 0 [])]], 3)
+    | .cacheToCache, _ => (inCache, [.fill [.piece pos (.cache 0 [])]], 4)
     | .storeToStore, _ => (inStore, [.write [] [] [(.piece pos (.store 0 []), .insertArg)] []], 1)
     | .argToStore, _ =>
       (inHeld, [if pos.final then .write [] [] [(.piece pos (.held 0 []), .insertArg)] []
@@ -73,7 +77,8 @@ def flowAnswer (T : Table) (leg : Leg) (pos : Pos) (v : Val) : List String :=
     | 0 => idsL w'.held |>.drop (idsL w.held).length
     | 1 => idsL (w'.store.drop 1)
     | 2 => idsL w'.store
-    | _ => idsL w'.cache
+    | 3 => idsL w'.cache
+    | _ => idsL (w'.cache.drop 1)
   [ (if shares src dst then "alias" else "fresh"),
     (if decide (Sep w') then "sep" else "nosep"),
     (if safeRun T w plan.2.1 then "safe" else "unsafe") ]
@@ -82,40 +87,50 @@ def showFlows (l : List FieldFlow) : List String :=
   l.map (fun f => f.key.toUTF8.foldl (fun acc b => (acc.push (hexDigit (b.toNat / 16))).push (hexDigit (b.toNat % 16))) "S"
     ++ "=" ++ f.pos.name ++ (if f.elems then "/e" else ""))
 
-/-- commands:
-    `c07 table`                      → every row of the table and every operation's rows
-    `c07 flow <pos> <value>`         → `alias|fresh sep|nosep safe|unsafe`
-    `c07 fill <pos> <value>`         → the same for the store → cache leg alone
-    `c07 out <pos> <value>`          → the same for the cache → caller leg alone
-    `c07 proj <projection|_> <doc>`  → `<key>=<pos>[/e] …` or `!Error` -/
-def handleC07 (ts : List String) : Option (List String) :=
+def tableAnswer (T : Table) : List String :=
+  Pos.all.map (fun p => p.name ++ "=" ++ ",".intercalate ((T.disc p).map Prim.name)
+        ++ ":" ++ (if chainDeep (T.disc p) then "deep" else "alias")
+        ++ ":" ++ flowName p.flow ++ ":" ++ (if p.final then "final" else "inner"))
+      ++ ["|"] ++
+      Op.all.map (fun o => o.name ++ "=" ++ ",".intercalate (o.rows.map Pos.name)
+        ++ ":" ++ (if o.copying T then "copying" else "aliasing"))
+
+def handleC07T (T : Table) (ts : List String) : Option (List String) :=
   match ts with
-  | ["c07", "table"] =>
-    some (Pos.all.map (fun p => p.name ++ "=" ++ ",".intercalate ((copyDiscipline.disc p).map Prim.name)
-            ++ ":" ++ (if chainDeep (copyDiscipline.disc p) then "deep" else "alias")
-            ++ ":" ++ flowName p.flow ++ ":" ++ (if p.final then "final" else "inner"))
-          ++ ["|"] ++
-          Op.all.map (fun o => o.name ++ "=" ++ ",".intercalate (o.rows.map Pos.name)
-            ++ ":" ++ (if o.copying copyDiscipline then "copying" else "aliasing")))
-  | "c07" :: "flow" :: p :: r =>
+  | ["table"] => some (tableAnswer T)
+  | "flow" :: p :: r =>
     match posOfName p, parseVal r with
-    | some pos, some (v, []) => some (flowAnswer copyDiscipline .whole pos v)
+    | some pos, some (v, []) => some (flowAnswer T .whole pos v)
     | _, _ => some ["?parse"]
-  | "c07" :: "fill" :: p :: r =>
+  | "fill" :: p :: r =>
     match posOfName p, parseVal r with
-    | some pos, some (v, []) => some (flowAnswer copyDiscipline .fill pos v)
+    | some pos, some (v, []) => some (flowAnswer T .fill pos v)
     | _, _ => some ["?parse"]
-  | "c07" :: "out" :: p :: r =>
+  | "out" :: p :: r =>
     match posOfName p, parseVal r with
-    | some pos, some (v, []) => some (flowAnswer copyDiscipline .out pos v)
+    | some pos, some (v, []) => some (flowAnswer T .out pos v)
     | _, _ => some ["?parse"]
-  | "c07" :: "proj" :: r =>
+  | "proj" :: r =>
     match parseOpt r with
     | some (pv, r') =>
       match parseVal r' with
       | some (.doc d, []) => some (showR showFlows (projFlows pv d))
       | _ => some ["?parse"]
     | none => some ["?parse"]
+  | _ => none
+
+/-- commands:
+    `c07 table`                      → every row of the table and every operation's rows
+    `c07 flow <pos> <value>`         → `alias|fresh sep|nosep safe|unsafe`
+    `c07 fill <pos> <value>`         → the same for the store → cache leg alone
+    `c07 out <pos> <value>`          → the same for the cache → caller leg alone
+    `c07 proj <projection|_> <doc>`  → `<key>=<pos>[/e] …` or `!Error`
+    `c07 <command>` asks the table of a client that reads naive datetimes, `c07 tz <command>` the
+    table of a `tz_aware` client -/
+def handleC07 (ts : List String) : Option (List String) :=
+  match ts with
+  | "c07" :: "tz" :: r => handleC07T (disciplineFor true) r
+  | "c07" :: r => handleC07T (disciplineFor false) r
   | _ => none
 
 end Driver
